@@ -29,7 +29,7 @@ EPS = 0.005
 TERMINATIONS = [None, 'raise_user', 'raise_interrupt', 'body_raise_user', 'body_raise_interrupt']
 
 
-EXTRACTORS = fr.EXTRACTORS + ['ok_shares_with_data']
+EXTRACTORS = fr.EXTRACTORS + ['ok_shares_with_data', 'ok_then_unencodable']
 
 
 def expected_user(extractor):
@@ -88,6 +88,11 @@ def judge_metadata(ctx, res, md, w, extractor):
         if user != expected_user(extractor):
             ctx.violation('user metadata differs from what the extractor returned', dict(w, got=repr(user)))
         ctx.count('extractor_ok_checked')
+    elif extractor == 'ok_then_unencodable':
+        # whatever the framework does with a value it cannot encode: the user's metadata is there completely or not at all
+        ctx.count('extractor_partly_unencodable_checked')
+        if user and set(user) != {'u_tag', 'u_n', 'u_conn', 'u_last'}:
+            ctx.violation('only a part of the user metadata was kept (one of its values cannot be encoded): all of it, or none', dict(w, got=sorted(user)))
     else:
         if user:
             ctx.violation('user metadata keys present although the extractor %s' % ('is absent' if extractor is None else 'failed (%s)' % extractor),
@@ -135,6 +140,23 @@ def _run_program(ctx, prog, rng, pidx):
     from playback.studio.recordings_lookup import find_matching_recording_ids, RecordingLookupProperties
     from vlib.cassettes import open_box
     from vlib.spies import SpyCassette, SpyRandom
+    nested = {'rid': None, 'rec': None}
+    if pidx % 4 == 2 and not prog.get("with_inner_operation"):
+        # an audit-style operation: it does some work, replays a stored recording of itself on the same recorder (a self-check), then does the rest
+        def nested_replay(built):
+            rec_ = nested['rec']
+            if nested['rid'] is None or rec_ is None or rec_.in_playback_mode:
+                return
+            from vlib.programs import Built as _B, World as _W, playback_function_for as _pf
+            from vlib import genclasses as _gc
+            try:
+                rec_.play(nested['rid'], _pf(_B(built.prog, rec_, _W(1, poison=True), cls_name=built.cls.__name__)))
+            except BaseException:  # noqa
+                pass
+            finally:
+                _gc.register(built.cls)
+            nested['count'] = nested.get('count', 0) + 1
+        prog = dict(prog, body=[{'op': 'sleep', 's': 0.03}, {'op': 'py', 'fn': nested_replay}] + list(prog['body']))
     trace = fr.dry_trace(prog)
     placements = [{}]
     for pos, op, dn in trace:
@@ -168,6 +190,7 @@ def _run_program(ctx, prog, rng, pidx):
         rec._random = SpyRandom(3)
         rec.enable_recording()
         complete_ids, incomplete_ids = [], []
+        nested['rec'] = rec
         poisoned = set()
         # the service class is invoked again and again: one class for all runs with an extractor configured (its behaviour varies
         # from run to run), one for the runs without an extractor
@@ -205,6 +228,8 @@ def _run_program(ctx, prog, rng, pidx):
                 if any(e[0] == 'save_failed' for e in res.spy_events):
                     continue
                 (incomplete_ids if interrupted else complete_ids).append((res.live.cls.__name__, saves[0][2]))
+                if not interrupted and not faults and nested["rid"] is None and pidx % 4 == 2:
+                    nested['rid'] = saves[0][2]            # from now on the operation replays this recording of itself before it ends
                 if not interrupted and rng.random() < 0.3:
                     # the long-lived recorder also replays between its recordings (a self-check, a studio run in the same process)
                     from vlib.programs import Built as _B, World as _W, playback_function_for as _pf
@@ -242,6 +267,8 @@ def _run_program(ctx, prog, rng, pidx):
                                 ctx.violation('stored user metadata (%s) differs from what the extractor returned' % view, dict(w, got=repr(user)[:200]))
                 except Exception as ex:
                     ctx.violation('stored metadata not readable: %s' % type(ex).__name__, w)
+        if nested.get('count'):
+            ctx.count('runs_with_a_nested_replay_before_they_end', nested['count'])
         # default lookup excludes exactly the incomplete ones
         reader_rec = TapeRecorder(box.reader())
         for category in sorted(set(c for c, _ in complete_ids + incomplete_ids)):
